@@ -299,8 +299,9 @@ def canon_node(o):
     return 'L(' + canon_leaf(o) + ')'
 
 
-OR_NAMES = ['"integer"', '"float"', '"decimal"', '"string"', '"boolean"', '"null"', '"any"', '"email"', '"uri"', '"date"', '"datetime"', '"uuid"', '"object"', '"array"', '"enum"']
-OR_SETS = ['{type: "integer"}', '{type: "integer", min: 0}', '{type: "integer", min: 0, max: 10, exclusiveMaximum: true}', '{type: "integer", const: true}',
+OR_NAMES = ['"integer"', '"float"', '"decimal"', '"string"', '"boolean"', '"null"', '"any"', '"email"', '"uri"', '"date"', '"datetime"', '"uuid"', '"object"', '"array"', '"enum"', '"@t"', '"@u"', '"@o"']
+OR_SETS = ['{type: "@t"}', '{type: "@u"}', '{type: "@u", nullable: true}', '{type: "@o"}', '{type: "@o", nullable: true}', '{type: "enum", enum: @e}',
+           '{type: "integer"}', '{type: "integer", min: 0}', '{type: "integer", min: 0, max: 10, exclusiveMaximum: true}', '{type: "integer", const: true}',
            '{type: "integer", nullable: true}', '{type: "float"}', '{type: "float", min: 1.5}', '{type: "decimal", precision: 2}', '{type: "decimal", precision: 1, const: true}',
            '{type: "string"}', '{type: "string", minLength: 1}', '{type: "string", maxLength: 3, nullable: true}', '{type: "string", const: true}', '{type: "string", regex: "^a"}',
            '{type: "boolean"}', '{type: "boolean", const: true}', '{type: "null"}', '{type: "any"}', '{type: "email"}', '{type: "datetime"}', '{type: "uuid", nullable: true}',
@@ -531,6 +532,9 @@ class Prop:
             qs.append(json.dumps({'schema': bytes.fromhex(oas).decode('utf-8', 'replace'), 'components': self.components, 'instances': insts}))
             owners.append((c, labels))
         self.judged = sum(len(l) for _, l in owners)
+        self.accepted = {}
+        for c, _ in owners:
+            self.accepted[c.klass] = self.accepted.get(c.klass, 0) + 1
         if qs:
             p = subprocess.run(['python3-vt', ORACLE], input='\n'.join(qs) + '\n', capture_output=True, text=True, timeout=3000)
             answers = [json.loads(l) for l in p.stdout.splitlines() if l.strip()]
@@ -546,9 +550,10 @@ class Prop:
         return [(Case(c.line, c.klass), why) for c, why in bad]
 
     judged = 0
+    accepted = {}
 
     def more_evidence(self):
-        return dict(instances_judged=self.judged)
+        return dict(instances_judged=self.judged, accepted_schemas_by_class=self.accepted)
 
     def describe(self):
         return dict(
